@@ -89,7 +89,7 @@ theorem stopBlockProc_e {s : St} (hs : He False s) (hst : s.stopping = true) :
     have b' : HRel False s (handleProcessorError (.ext .cancelled 0) { emit .procCancel t with proc := none }) :=
       ⟨b.1, b.2.1, fun _ => hk.2.2⟩
     split
-    · have c := (commitAndStop_e hin) _ b'.1
+    · have c := (commitAndStop_e (cfg := cfg) hin) _ b'.1
       exact ⟨c.1, c.2.1.trans b'.2.1, fun _ => c.2.2 hk.2.2⟩
     · exact b'
   · exact hb
